@@ -782,6 +782,17 @@ def regression_cases(mode):
     fl = {"t": "Filler", "w": T_("one"), "valign": "top"}
     for seed in range(6):
         out.append({"mode": mode, "kind": "box", "recipe": fl, "sizes": [[10, 3], [10, 4]], "ops": [["render", 0, 0], ["clear"], ["render", 1, 0], (["gc", seed, "keep-last"] if seed % 2 else ["gc", seed]), ["mut", 1, ["set_text", "two"]], ["render", 1, 0], ["render", 0, 0]]})
+    # a hidden PACK column next to a visible column that changes twice; and a hidden item whose own canvases die
+    # (only the wide rendering kept them alive) before it changes
+    hp = {"t": "Columns", "items": [["weight", 1, T_("ab")], ["pack", None, T_("packed")]], "div": 0, "focus": 0, "min_width": 1}
+    chg = lambda i, txt: ["mut", i, ["set_text", txt]]  # noqa: E731
+    out.append({"mode": mode, "kind": "flow", "recipe": hp, "sizes": [[20], [4]], "ops": [["render", 0, 0], chg(1, "cd"), ["render", 0, 0], chg(1, "ef"), ["render", 1, 0], chg(1, "gh"), ["render", 1, 0]]})
+    out.append({"mode": mode, "kind": "flow", "recipe": hp, "sizes": [[20], [4]], "ops": [["render", 0, 0], ["render", 1, 0], ["gc", 1, "keep-last"], chg(2, "p"), ["render", 1, 0], ["render", 0, 0]]})
+    out.append({"mode": mode, "kind": "flow", "recipe": {"t": "Pile", "items": [["pack", None, hp], ["pack", None, T_("below")]], "focus": 0}, "sizes": [[20], [4]], "ops": [["render", 0, 0], chg(2, "ij"), ["render", 1, 0], chg(2, "kl"), ["render", 1, 0], ["gc", 2, "keep-last"], chg(3, "q"), ["render", 1, 0]]})
+    # an item with no rows inside a ListBox / Pile gets rows later
+    zl = {"t": "ListBox", "items": [T_("top"), {"t": "Pile", "items": [], "focus": 0}, T_("bottom")], "walker": "simple", "focus": 0}
+    out.append({"mode": mode, "kind": "box", "recipe": zl, "sizes": [[12, 5]], "ops": [["render", 0, 1], ["mut", 2, ["contents_append", 12345]], ["render", 0, 1]]})
+    out.append({"mode": mode, "kind": "box", "recipe": zl, "sizes": [[12, 5]], "ops": [["render", 0, 0], ["mut", 2, ["contents_append", 777]], ["render", 0, 0], ["mut", 2, ["contents_clear"]], ["render", 0, 0], ["mut", 2, ["contents_append", 778]], ["render", 0, 0]]})
     # scroll state reached only key by key: a tall item partly scrolled off, then back (looks after every key)
     tall = "\n".join(f"line {i}" for i in range(12))
     lbs = [
